@@ -220,8 +220,13 @@ impl Memfs {
     pub(crate) fn _add(&self, guard: &mut MemfsGuard, entry: MemfsEntry) -> RvResult<PathBuf> {
         let path = entry.path_buf();
 
-        // Skip creation of root as `new` will take care of that
+        // Skip creation of root as `new` will take care of that, but root can only ever be a directory
         if path == PathBuf::from(Component::RootDir.to_string()?) {
+            if entry.is_symlink() {
+                return Err(PathError::is_not_symlink(&path).into());
+            } else if entry.is_file() {
+                return Err(PathError::is_not_file(&path).into());
+            }
             return Ok(path);
         }
 
